@@ -92,6 +92,8 @@ TLC_EVENT_KEYS = {
     "director_exc",
     "step_exc",
     "write",
+    "read",
+    "amend_result",
     "finalize_end",
     "ext_edit",
 }
